@@ -7,7 +7,9 @@ use std::panic::{AssertUnwindSafe, catch_unwind};
 mod util;
 mod svc;
 mod gen_backend;
+mod gen_outputs;
 mod c01;
+mod c04;
 mod c05;
 mod c08;
 mod c09;
@@ -16,6 +18,7 @@ mod c13;
 mod gen_xml;
 mod c14;
 mod c15;
+mod c16;
 mod c20;
 mod fsrun;
 
@@ -51,6 +54,7 @@ fn dispatch(suite: &str, case: &Value) -> Value {
     match suite {
         "svc" => svc::run(case),
         "c01" => c01::run(case),
+        "c04" => c04::run(case),
         "c05" => c05::run(case),
         "c08" => c08::run(case),
         "c09" => c09::run(case),
@@ -58,6 +62,7 @@ fn dispatch(suite: &str, case: &Value) -> Value {
         "c13" => c13::run(case),
         "c14" => c14::run(case),
         "c15" => c15::run(case),
+        "c16" => c16::run(case),
         "c20" => c20::run(case),
         "fs" => fsrun::run(case),
         "fspath" => fsrun::run_path(case),
